@@ -22,7 +22,7 @@ RULE = ("Generated hierarchies, built bottom-up so that parents fit: root = wish
         "of real registers (Cluster/Index scopes), csr.Multiplexer over mock registers (unaligned, "
         "padded), csr.EventMonitor and gpio.Peripheral; windows shuffled, named/anonymous, implicit / "
         "align_to / explicit slot. Oracle = the root memory map (decode_address / find_resource). "
-        "Procedure: for EVERY root address, ascending: a read pass and a write pass with all select "
+        "Procedure: for EVERY root address (roots larger than the tier's full-sweep limit: every address holding part of a resource, its neighbours and a sample), ascending: a read pass and a write pass with all select "
         "bits, then again with a random select mask per word and back-to-back transfers (no idle cycle after the acknowledge); a probe samples every leaf register's "
         "r_stb/w_stb and every SRAM's cyc&stb/ack on every cycle. Checked: strobes exactly at first / "
         "last chunk of the decoded leaf and nowhere else, lane data = slice (a - start) of the value "
@@ -315,7 +315,8 @@ def check(spec, stats):
         stats.label(l)
     rmap = bus.memory_map
     naddr = 1 << rmap.addr_width
-    if naddr > tier_limit:
+    sampled = naddr > tier_limit
+    if naddr > (1 << 16):
         stats.label("skipped_too_large")
         return
     infos = list(rmap.all_resources())
@@ -464,6 +465,22 @@ def check(spec, stats):
     def ratio_mem(l):
         return l.res.data.shape.width // unit
 
+    def visit(n_units, per_unit):
+        """All units (words / addresses) of the root, or - for roots beyond the tier's full-sweep limit -
+        every unit that holds part of a resource, its neighbours, window boundaries and a sample."""
+        if not sampled:
+            return range(n_units)
+        stats.label("sampled_sweep")
+        pts = {0, n_units - 1}
+        for l in leaves:
+            for a in range(l.info.start, l.info.end):
+                pts.add(a // per_unit)
+            for a in (l.info.start - 1, l.info.end):
+                if 0 <= a < naddr:
+                    pts.add(a // per_unit)
+        pts.update(hval(seed, "visit", k, 30) % n_units for k in range(64))
+        return sorted(pts)
+
     if is_wb:
         R = root["dw"] // root["g"]
         gbits = R.bit_length() - 1
@@ -558,7 +575,7 @@ def check(spec, stats):
         async def tb(ctx):
             for sweep in (0, 1):
                 for we in (0, 1):
-                    for w in range(nwords):
+                    for w in visit(nwords, R):
                         sel = (1 << R) - 1 if sweep == 0 else hval(seed, f"sel{sweep}{we}", w, R)
                         await transfer(ctx, w, sel, we, hval(seed, f"dw{sweep}", w, dwid), f"sweep {sweep} {'write' if we else 'read'}",
                                        idle=(sweep == 0))
@@ -597,7 +614,7 @@ def check(spec, stats):
         async def tb(ctx):
             for sweep in (0, 1):
                 for we in (0, 1):
-                    for a in range(naddr):
+                    for a in visit(naddr, 1):
                         if sweep == 1 and hval(seed, f"skip{we}", a, 2) == 0:
                             continue
                         await access(ctx, a, we, hval(seed, f"cw{sweep}", a, unit), f"sweep {sweep}")
